@@ -7,10 +7,13 @@ import (
 	"verif/driver"
 	"verif/scen/fscrash"
 	"verif/scen/kvstore"
+	"verif/scen/linksys"
 )
 
 func main() {
 	driver.Register(fscrash.S{})
 	driver.Register(kvstore.S{})
+	driver.Register(linksys.S06{})
+	driver.Register(linksys.S05{})
 	os.Exit(driver.Main(os.Args[1:]))
 }
